@@ -425,7 +425,7 @@ Theorem num_ok :
 Proof.
   pose proof Hps as Hpos.
   unfold run, compile. rewrite Hnum, process_numeric_ok. cbn [bind c_toks c_positiontup c_next].
-  destruct (has_postcompile inp) eqn:HP.
+  destruct (i_pc inp) eqn:HP.
   - unfold postcompile. rewrite Hpos. cbn [c_toks c_positiontup c_next].
     assert (Hincl : incl (keys npp) order) by (intros k Hk; apply npp_keys; exact Hk).
     destruct (pc_loop tab lit empty_expr ps inp W (keys npp) Hincl) as [st [E I]].
@@ -448,11 +448,11 @@ Proof.
     + intros n Hn. destruct (w_pc _ _ W n Hn) as [A B]. apply (v_repl_in _ _ _ _ _ _ _ I n); [|exact B].
       apply npp_keys. exact A.
   - assert (Hno : forall n, ~ In (PC n) (i_toks inp)).
-    { intros n Hn. destruct (w_pc _ _ W n Hn) as [A B]. apply B. exact (has_postcompile_false inp n HP A). }
+    { intros n Hn. destruct (w_pc _ _ W n Hn) as [A B]. apply B. exact (has_postcompile_false tab inp n W HP A). }
     cbn [bind]. rewrite Hpos.
     (* without post-compile binds there are no expanded names and positiontup is the plain names *)
     assert (Hall : forall k, In k (keys npp) -> kind_of inp k = Plain).
-    { intros k Hk. apply npp_keys in Hk. exact (has_postcompile_false inp k HP Hk). }
+    { intros k Hk. apply npp_keys in Hk. exact (has_postcompile_false tab inp k W HP Hk). }
     assert (HkP : keys npp = P).
     { unfold P, plains. revert Hall. generalize (keys npp) as l. induction l as [|k l IH]; intro Hall; [reflexivity|].
       cbn [filter]. rewrite (Hall k (or_introl eq_refl)). cbn [is_plain]. f_equal. apply IH. intros k' Hk'. apply Hall. right. exact Hk'. }
